@@ -56,10 +56,13 @@ def build(lengths, variant, grid_rot=0):
         members.append(MazeDataset(cfg, mazes=mazes))
         concat.extend(mazes)
         cfgs_listed.append(cfg if variant.startswith("shared") else MazeDatasetConfig(name=f"member{k}", grid_n=g, n_mazes=declared))
+    arg = list(members)
     coll = MazeDatasetCollection(
         cfg=MazeDatasetCollectionConfig(name="coll", maze_dataset_configs=cfgs_listed),
-        maze_datasets=members,
+        maze_datasets=arg,
     )
+    # the caller goes on using ITS OWN list (builds the next collection from it): the collection holds the members it was given, nothing more
+    arg.append(MazeDataset(MazeDatasetConfig(name="later", grid_n=2, n_mazes=1), mazes=[_tiny_maze(2, 10**6)]))
     return coll, concat
 
 
@@ -178,7 +181,7 @@ def run(tier, seed):
         "C16.collection-is-concatenation",
         rule=f"every vector of member lengths over {{0,1,2,3}} of length 1..{max_len} (zeros anywhere, repeated zeros), neighbouring members of different grid size, "
         "x 4 ways the member configs relate to the listed configs (same objects / equal copies, declared counts right / stale); "
-        "every index 0<=i<len compared by object identity with the Python concatenation of the member lists; then (multi-step) a member is replaced by a shorter / empty dataset, "
+        "the list handed to the constructor is extended by the caller afterwards (the collection must not follow it); every index 0<=i<len compared by object identity with the Python concatenation of the member lists; then (multi-step) a member is replaced by a shorter / empty dataset, "
         "update_self_config() is called and everything is compared with the new concatenation; non-trivial = at least one maze; "
         "distinct by (lengths, variant)",
         exhaustive=True,
